@@ -8,6 +8,11 @@ graphs ("layers") are explored:
   DS  a DataSet with its tree lists / character matrices (attached and detached)
   CM  a DnaCharacterMatrix
   TA  a TreeArray
+  TP  a TreeList facing a persistent pool of three trees over ONE shared foreign namespace S
+      (restricted alphabet: every import API x strategy, every way of changing the list's own
+      namespace, then imports of the trees that still live in S)
+  DP  a DataSet holding a TreeList, same pool plus two matrices over S (imports into the component
+      list, add of the pool matrices, unify / attach / member-level migration)
 
 A state is represented by the shortest operation history that reaches it (replayed on
 fresh objects; see mc/hist.py); states are merged on a canonical snapshot of everything
@@ -50,7 +55,10 @@ RULE = ("explicit-state BFS in four state graphs (TreeList; DataSet attached/det
         "sets overlap, are disjoint, differ in case only, or repeat a label; both case rules; both taxon import "
         "strategies and unify_taxa_by_label on/off) is applied to a fresh replay of the state, to the depth bound, with "
         "visited-state hashing; a case = one transition; non-trivial = the operation involves a foreign namespace or a "
-        "namespace change, or the container is not empty")
+        "namespace change, or the container is not empty; two further graphs (TP, DP) use a persistent pool of trees / "
+        "matrices that share ONE foreign namespace S, so that import - namespace change - import of another tree still "
+        "living in S is explored for every import API; a matrix container gets sequences keyed by the same Taxon objects "
+        "of a persistent foreign namespace before and after its own migration")
 ASSUMPTIONS = [
     "a state is (case rule and member labels of every namespace in play, for every member which namespace object it is "
     "bound to, for every node / sequence the position of its taxon in that namespace); tree shape, sequence contents "
@@ -87,9 +95,9 @@ MANIFEST = {
 
 def bounds(tier):
     if tier == "quick":
-        return {"depth": {"TL": 3, "DS": 3, "CM": 3, "TA": 3}, "max_trees": 3, "max_components": 3,
+        return {"depth": {"TL": 3, "DS": 3, "CM": 3, "TA": 3, "TP": 3, "DP": 3}, "max_trees": 3, "max_components": 3,
                 "tree_specs": ["ab", "Ac", "cdz", "aA", "aa", "bce"], "chunk": 6}
-    return {"depth": {"TL": 4, "DS": 4, "CM": 4, "TA": 4}, "max_trees": 3, "max_components": 3,
+    return {"depth": {"TL": 4, "DS": 4, "CM": 4, "TA": 4, "TP": 4, "DP": 4}, "max_trees": 3, "max_components": 3,
             "tree_specs": ["ab", "Ac", "cdz", "aA", "aa", "bce"], "chunk": 6}
 
 
@@ -167,6 +175,41 @@ def build_tree(ns, picks, root=None):
 def tree_from_spec(name):
     cs, labels, picks, root = TREE_SPECS[name]
     return build_tree(build_ns(cs, labels), picks, root)
+
+
+POOL_NS = (False, ("a", "b", "c"))
+POOL_TREES = {"P0": ((0, 1), None), "P1": ((0, 2), None), "P2": ((1, 2), None)}     # all over ONE shared foreign namespace S
+POOL_MATRICES = {"Q0": (0, 1), "Q1": (0, 2)}                                        # over the same S
+
+
+def get_tree(w, spec):
+    """a fresh tree of the menu, or a tree of the world's persistent pool over the shared foreign namespace S"""
+    pool = getattr(w, "pool", None)
+    if pool is not None and spec in pool:
+        return pool.pop(spec)
+    return tree_from_spec(spec)
+
+
+def make_pool(w, matrices=False):
+    w.S = build_ns(*POOL_NS)
+    w.pool = dict((name, build_tree(w.S, picks, root)) for name, (picks, root) in POOL_TREES.items())
+    w.mpool = {}
+    if matrices:
+        for i, (name, picks) in enumerate(sorted(POOL_MATRICES.items())):
+            m = DnaCharacterMatrix(taxon_namespace=w.S)
+            for j, pk in enumerate(picks):
+                m._taxon_sequence_map[w.S._taxa[pk]] = m.character_sequence_type(["TA", "TC", "TG", "TT"][2 * i + j])
+            w.mpool[name] = m
+
+
+def pool_key(w, cns):
+    cidx = {id(x): i for i, x in enumerate(cns._taxa)} if cns is not None else {}
+    S = w.S
+    sidx = {id(x): i for i, x in enumerate(S._taxa)}
+    return (tuple(x._label for x in S._taxa), S is cns,
+            tuple((name, _tsig(t, cns, cidx)) for name, t in sorted(w.pool.items())),
+            tuple((name, m._taxon_namespace is S, tuple(sidx.get(id(tx), ("x", tx._label)) for tx in m._taxon_sequence_map))
+                  for name, m in sorted(w.mpool.items())))
 
 
 def treelist_from_spec(name):
@@ -607,6 +650,8 @@ def tl_site(op):
         return "TreeList.__getitem__(slice)"
     if k == "ctor":
         return "TreeList(TreeList)" if op[1] == "copy" else "TreeList(TreeList,taxon_namespace=other)"
+    if k == "ctor_list":
+        return "TreeList(list,taxon_namespace=)"
     raise ValueError(op)
 
 
@@ -690,7 +735,7 @@ def tl_apply(w, op, R):
 
     if k in ("append", "insert", "reappend"):
         sname, kw, modename = STRAT[op[-1]]
-        t = w.removed.pop(op[1]) if k == "reappend" else tree_from_spec(op[1])
+        t = w.removed.pop(op[1]) if k == "reappend" else get_tree(w, op[1])
         inc = [(t, rec_of(taxa_of(t)), t._taxon_namespace is ns)]
         if k == "insert":
             exc = call(lambda: tl.insert(0, t, **kw))
@@ -702,8 +747,8 @@ def tl_apply(w, op, R):
             return
         after_insert(inc, expect, modename, allow_dup=(modename != "unify"))
     elif k == "setitem":
-        t = tree_from_spec(op[2])
-        inc = [(t, rec_of(taxa_of(t)), False)]
+        t = get_tree(w, op[2])
+        inc = [(t, rec_of(taxa_of(t)), t._taxon_namespace is ns)]
         i = op[1]
 
         def f():
@@ -715,8 +760,8 @@ def tl_apply(w, op, R):
         expect[i] = t
         after_insert(inc, expect, "unify", False, replaced)
     elif k in ("setslice", "extend", "iadd", "add"):
-        trees = [tree_from_spec(s) for s in op[-1]]
-        inc = [(t, rec_of(taxa_of(t)), False) for t in trees]
+        trees = [get_tree(w, s) for s in op[-1]]
+        inc = [(t, rec_of(taxa_of(t)), t._taxon_namespace is ns) for t in trees]
         if k == "setslice":
             lo, hi = op[1], op[2]
 
@@ -792,6 +837,20 @@ def tl_apply(w, op, R):
         _existing_unchanged([(t, p) for t, p in pre_old if id(t) not in rep], site, R)
         w.removed.extend(replaced)
         _removed_ok(w, site, R)
+    elif k == "ctor_list":
+        # constructor as an import API: TreeList(iterable of trees, taxon_namespace=ns)
+        t = get_tree(w, op[1])
+        inc = [(t, rec_of(taxa_of(t)), t._taxon_namespace is ns)]
+        res = []
+        exc = call(lambda: res.append(TreeList(list(old) + [t], taxon_namespace=ns)))
+        if unexpected(site, exc, R):
+            return
+        r = res[0]
+        if r._taxon_namespace is not ns:
+            R.add("%s|container-not-bound-to-target" % site, "the new list is not bound to the namespace object passed")
+            return
+        w.tl = tl = r
+        after_insert(inc, old + [t], "unify", False)
     elif k == "read":
         schema, text, doc_trees = NEWICK_DOCS[op[1]]
         rkw = {"case_sensitive_taxon_labels": bool(ns.is_case_sensitive)}
@@ -877,7 +936,9 @@ def tl_apply(w, op, R):
             pre_old = [(t, rec_of(taxa_of(t))) for t in old]
         if k in ("migrate", "assign_ns_reconstruct", "assign_ns_update"):
             tgt = op[1]
-            if tgt == "same":
+            if tgt == "S":
+                T = w.S
+            elif tgt == "same":
                 T = ns
             elif tgt == "share":
                 T = TaxonNamespace(is_case_sensitive=ns.is_case_sensitive)
@@ -1221,6 +1282,11 @@ def ds_site(op):
         return "DataSet.tree_lists[0].append"
     if k == "member_new_sequence":
         return "DataSet.char_matrices[0].new_sequence"
+    if k == "pool_import":
+        api = op[2]
+        if api.startswith(("append_", "insert_")):
+            return "DataSet.tree_lists[0].%s(%s)" % (api[:-2], STRAT[api[-1]][0])
+        return "DataSet.tree_lists[0].%s" % {"extend": "extend(list)", "iadd": "__iadd__(list)", "setitem": "__setitem__(index)"}[api]
     if k == "member_migrate":
         return "DataSet.%s[0].migrate_taxon_namespace" % ("tree_lists" if op[1] == "tl" else "char_matrices")
     if k == "member_assign_reconstruct":
@@ -1304,7 +1370,7 @@ def ds_apply(w, op, R):
         if k == "add_tl":
             obj = treelist_from_spec(op[1])
         elif k == "add_cm":
-            obj = matrix_from_spec(op[1])
+            obj = w.mpool.pop(op[1]) if op[1] in getattr(w, "mpool", {}) else matrix_from_spec(op[1])
         else:
             obj = TaxonNamespace()
         exc = call(lambda: ds.add(obj))
@@ -1490,6 +1556,53 @@ def ds_apply(w, op, R):
             return
         tls, cms = w.comps()
         check_old_unchanged = False
+    elif k == "pool_import":
+        check_old_unchanged = False
+        tl = tls0[0]
+        t = w.pool.pop(op[1])
+        api = op[2]
+        ns = tl._taxon_namespace
+        mem = members(ns)
+        was_in = t._taxon_namespace is ns
+        pre = rec_of(taxa_of(t))
+        old = list(tl._trees)
+        modename, kw2 = "unify", {}
+        if api.startswith(("append_", "insert_")):
+            _sn, kw2, modename = STRAT[api[-1]]
+        if api.startswith("append_"):
+            exc = call(lambda: tl.append(t, **kw2))
+            expect = old + [t]
+        elif api.startswith("insert_"):
+            exc = call(lambda: tl.insert(0, t, **kw2))
+            expect = [t] + old
+        elif api == "extend":
+            exc = call(lambda: tl.extend([t]))
+            expect = old + [t]
+        elif api == "iadd":
+            def f():
+                x = tl
+                x += [t]
+            exc = call(f)
+            expect = old + [t]
+        else:
+            def f():
+                tl[0] = t
+            exc = call(f)
+            expect = [t] + old[1:]
+        if unexpected(site, exc, R):
+            return
+        if tl._taxon_namespace is not ns or [id(x) for x in tl._trees] != [id(x) for x in expect]:
+            R.add("%s|wrong-members" % site, "the component list does not hold the expected trees / changed its namespace object")
+            return
+        relate(pre, taxa_of(t), "same" if was_in else modename, ns.is_case_sensitive, set(id(o) for o, _l in mem), [l for _o, l in mem], site, R)
+        ns_conserved(ns, mem, modename != "unify", site, R)
+        for tl2, trs in pre_trees:
+            for t2, p in trs:
+                if any(t2 is x for x in tl2._trees):
+                    relate(p, taxa_of(t2), "same", True, (), (), site + "|existing-component", R)
+        for m, recs2 in pre_mats:
+            if [id(r[0]) for r in recs2] != [id(tx) for tx in m._taxon_sequence_map]:
+                R.add("%s|existing-component|matrix-keys-changed" % site, "sequence keys of an untouched matrix changed")
     elif k in ("member_migrate", "member_assign_reconstruct"):
         check_old_unchanged = False
         c = tls0[0] if op[1] == "tl" else cms0[0]
@@ -1549,7 +1662,7 @@ def ds_apply(w, op, R):
     osite = site
     if k == "attach":
         osite = "%s(%s)|%s" % (site, "registered" if op[1] in ("first", "last") else "new", "was-attached" if att0 is not None else "was-detached")
-    for c in ([] if k in ("unify", "member_migrate", "member_assign_reconstruct") else _offenders(ds, tls, cms)):
+    for c in ([] if k in ("unify", "member_migrate", "member_assign_reconstruct", "pool_import") else _offenders(ds, tls, cms)):
         if id(c) in pre_off and ds.attached_taxon_namespace is att0:
             continue
         kind = "tree list" if isinstance(c, TreeList) else "character matrix"
@@ -1593,6 +1706,7 @@ class CMWorld(object):
         ns = build_ns(cs, labels)
         self.m = DnaCharacterMatrix(taxon_namespace=ns)
         self.nseq = 0
+        self.S = build_ns(False, ("a", "b"))      # persistent foreign namespace: its Taxon objects are used as keys repeatedly
         for p in picks:
             self.m._taxon_sequence_map[ns._taxa[p]] = self.m.character_sequence_type(self.next_seq())
 
@@ -1614,7 +1728,8 @@ def cm_key(w):
     ns = m._taxon_namespace
     cidx = {id(x): i for i, x in enumerate(ns._taxa)}
     return ("CM", bool(ns.is_case_sensitive), tuple(x._label for x in ns._taxa),
-            tuple(cidx.get(id(tx), ("x", tx._label)) for tx in m._taxon_sequence_map), w.nseq % len(SEQ_POOL))
+            tuple(cidx.get(id(tx), ("x", tx._label)) for tx in m._taxon_sequence_map), w.nseq % len(SEQ_POOL),
+            tuple(cidx.get(id(x), -1) for x in w.S._taxa))
 
 
 def _free_member(m):
@@ -1651,6 +1766,8 @@ def cm_enabled(w, b):
     if nmem < 6:
         for kind in ("label_new", "label_case", "taxon_foreign"):
             ops.append(("from_dict", kind))
+        ops.append(("from_dict", "pool_taxon_0"))     # keyed by a Taxon object of the shared foreign namespace S
+        ops.append(("from_dict", "pool_taxon_1"))
     for meth in MERGERS:
         ops.append(("other", meth, "same"))
         ops.append(("other", meth, "foreign"))
@@ -1683,6 +1800,8 @@ def cm_site(op):
     if k == "getitem":
         return "CharacterMatrix.__getitem__(%s)" % op[1].replace("_", "-")
     if k == "from_dict":
+        if op[1].startswith("pool_taxon_"):
+            return "CharacterMatrix.from_dict(taxon-of-shared-foreign-namespace)"
         return "CharacterMatrix.from_dict(%s)" % op[1].replace("_", "-")
     if k == "other":
         return "CharacterMatrix.%s(%s)" % (op[1], "same-namespace" if op[2] == "same" else "other-namespace")
@@ -1795,6 +1914,8 @@ def cm_apply(w, op, R):
             d = {"d": content}
         elif op[1] == "label_case":
             d = {"A": content}
+        elif op[1].startswith("pool_taxon_"):
+            d = {w.S._taxa[int(op[1][-1])]: content}
         else:
             d = {Taxon(label="a"): content}
         exc = call(lambda: DnaCharacterMatrix.from_dict(d, char_matrix=m))
@@ -1808,7 +1929,9 @@ def cm_apply(w, op, R):
         if any(not any(x is y for y in cur) for x in keys0) or len(cur) > len(keys0) + 1:
             R.add("%s|wrong-sequence-keys" % site, "sequences are keyed by %s after adding one entry to %s" % (
                 [x._label for x in cur], [x._label for x in keys0]))
-        ns_conserved(ns, pre_mem, op[1] == "taxon_foreign", site, R)
+        ns_conserved(ns, pre_mem, op[1] == "taxon_foreign" or op[1].startswith("pool_taxon_"), site, R)
+        if op[1].startswith("pool_taxon_") and not any(w.S._taxa[int(op[1][-1])] is x for x in cur):
+            R.add("%s|wrong-sequence-keys" % site, "the Taxon object given as key does not key a sequence afterwards")
     elif k == "other":
         meth, okind = op[1], op[2]
         if okind == "same":
@@ -2286,6 +2409,155 @@ def ta_apply(w, op, R):
     _ta_state_ok(w, w.ta, w.want, site, R)
 
 
+# ---------------------------------------------------------------------------
+# layers TP / DP: containers facing a persistent pool of foreign material over ONE shared
+# foreign namespace S (several trees / matrices that share S's Taxon objects), restricted
+# alphabet: [import from S (every import API x strategy)] x [change of the container's own
+# namespace (every API)] x [import of ANOTHER tree that still lives in S]
+
+class TPWorld(TLWorld):
+    layer = "TP"
+
+    def __init__(self, start):
+        TLWorld.__init__(self, start)
+        make_pool(self)
+
+
+def tp_starts(b):
+    return [("tp", 0, 0), ("tp", 1, 0), ("tp", 0, 1)]
+
+
+def tp_key(w):
+    return ("TP",) + tl_key(w)[1:] + (pool_key(w, w.tl._taxon_namespace),)
+
+
+def tp_enabled(w, b):
+    n = w.size()
+    cap = b["max_trees"]
+    ops = []
+    for name in sorted(w.pool):
+        if n + 1 <= cap:
+            for st in "mna":
+                ops.append(("append", name, st))
+                ops.append(("insert", name, st))
+            ops.append(("extend", (name,)))
+            ops.append(("iadd", (name,)))
+            ops.append(("setslice", 0, 0, (name,)))
+            ops.append(("add", (name,)))
+            ops.append(("ctor_list", name))
+        if n >= 1:
+            ops.append(("setitem", 0, name))
+            ops.append(("setslice", 0, 1, (name,)))
+    for tgt in ("ci", "cs", "pre", "S", "same", "share"):
+        for u in (1, 0):
+            ops.append(("migrate", tgt, u))
+    for u in (1, 0):
+        ops.append(("reconstruct", u))
+    ops.append(("update",))
+    for tgt in ("ci", "S"):
+        for u in (1, 0):
+            ops.append(("assign_ns_reconstruct", tgt, u))
+        ops.append(("assign_ns_update", tgt))
+    for how in ("copy", "ci"):
+        ops.append(("ctor", how))
+    if n >= 1:
+        ops.append(("pop", -1))
+    if w.removed and n + 1 <= cap:
+        ops.append(("reappend", len(w.removed) - 1, "m"))
+    return ops
+
+
+IMPORT_KINDS = ("append", "insert", "setitem", "setslice", "extend", "iadd", "add", "ctor_list", "reappend", "pool_import")
+
+
+def op_family(op):
+    """coarse family of an earlier operation, for the 'after:' part of pool-layer signatures"""
+    k = op[0]
+    if k in ("append", "insert", "reappend"):
+        return "import(%s)" % STRAT[op[-1]][0]
+    if k == "pool_import":
+        return "import(%s)" % {"m": "migrate", "n": "migrate,unify_taxa_by_label=False", "a": "add"}.get(op[2][-1:], "migrate") \
+            if op[2].startswith(("append_", "insert_")) else "import(migrate)"
+    if k in IMPORT_KINDS:
+        return "import(migrate)"
+    if k == "migrate":
+        return "migrate_taxon_namespace"
+    if k == "reconstruct":
+        return "reconstruct_taxon_namespace"
+    if k in ("assign_ns_reconstruct", "assign_ns_update"):
+        return "taxon_namespace="
+    if k == "ctor":
+        return "TreeList(TreeList)"
+    if k == "unify":
+        return "unify_taxon_namespaces"
+    if k == "member_migrate":
+        return "member.migrate_taxon_namespace"
+    if k == "member_assign_reconstruct":
+        return "member.taxon_namespace="
+    if k == "attach":
+        return "attach_taxon_namespace"
+    return None
+
+
+def after_tag(ops):
+    fams = []
+    for o in ops:
+        f = op_family(o)
+        if f is not None and f not in fams:
+            fams.append(f)
+    return "+".join(fams)
+
+
+class DPWorld(DSWorld):
+    layer = "DP"
+
+    def __init__(self, start):
+        DSWorld.__init__(self, ("ds", start[1]))
+        self.ds.new_tree_list()
+        make_pool(self, matrices=True)
+
+
+def dp_starts(b):
+    return [("dp", "detached"), ("dp", "attached_ci")]
+
+
+def dp_key(w):
+    tls, _cms = w.comps()
+    return ("DP",) + ds_key(w)[1:] + (pool_key(w, tls[0]._taxon_namespace if tls else None),)
+
+
+POOL_IMPORT_APIS = ("append_m", "append_n", "append_a", "insert_m", "extend", "iadd", "setitem")
+
+
+def dp_enabled(w, b):
+    tls, cms = w.comps()
+    ops = []
+    if tls:
+        n = len(tls[0]._trees)
+        for name in sorted(w.pool):
+            for api in POOL_IMPORT_APIS:
+                if api == "setitem":
+                    if n >= 1:
+                        ops.append(("pool_import", name, api))
+                elif n + 1 <= b["max_trees"]:
+                    ops.append(("pool_import", name, api))
+        ops.append(("member_migrate", "tl", "ci"))
+        ops.append(("member_assign_reconstruct", "tl", "ci"))
+    if len(tls) + len(cms) + 1 <= b["max_components"]:
+        for name in sorted(w.mpool):
+            ops.append(("add_cm", name))
+    if cms:
+        ops.append(("member_migrate", "cm", "ci"))
+    for v in ("default", "given_cs", "given_ci_noattach", "default_noattach"):
+        ops.append(("unify", v))
+    if len(w.ds.taxon_namespaces):
+        ops.append(("unify", "first"))
+    ops.append(("attach", "fresh_ci"))
+    if w.ds.attached_taxon_namespace is not None:
+        ops.append(("detach",))
+    return ops
+
+
 # ===========================================================================
 # LAYER-REGISTRY-BELOW (other layers are defined above this line)
 
@@ -2294,6 +2566,8 @@ LAYERS = {
     "TL": {"world": TLWorld, "starts": tl_starts, "enabled": tl_enabled, "apply": tl_apply, "key": tl_key, "site": tl_site},
     "CM": {"world": CMWorld, "starts": cm_starts, "enabled": cm_enabled, "apply": cm_apply, "key": cm_key, "site": cm_site},
     "DS": {"world": DSWorld, "starts": ds_starts, "enabled": ds_enabled, "apply": ds_apply, "key": ds_key, "site": ds_site},
+    "TP": {"world": TPWorld, "starts": tp_starts, "enabled": tp_enabled, "apply": tl_apply, "key": tp_key, "site": tl_site},
+    "DP": {"world": DPWorld, "starts": dp_starts, "enabled": dp_enabled, "apply": ds_apply, "key": dp_key, "site": ds_site},
 }
 
 
@@ -2302,6 +2576,8 @@ def nontrivial_op(layer, op, world):
     k = op[0]
     if world.size() > 0:
         return True
+    if layer in ("TP", "DP"):
+        return k in IMPORT_KINDS or k == "add_cm"
     if layer == "TL":
         return k not in ("new_tree", "new_tree_foreign_ns", "read_foreign_ns", "update", "slice", "reconstruct")
     if layer == "DS":
@@ -2364,6 +2640,12 @@ def step(h, op, ctx):
             # is still checked for closure ("closure-broken-after-refusal").
             ctx.count("exception_not_deciding:" + sig)
             continue
+        if layer in ("TP", "DP") and op[0] in IMPORT_KINDS and ops:
+            # pool layers: an import that goes wrong only after earlier imports / namespace changes names them
+            tag = after_tag(ops)
+            if tag:
+                head, _sep, rest = sig.partition("|")
+                sig = "%s|after:%s|%s" % (head, tag, rest)
         ctx.violation(sig, "%s   [%s; history %s]" % (msg, describe(layer, start), " ; ".join(map(repr, list(ops) + [op]))), case)
     if R.fatal:
         return None
@@ -2374,6 +2656,11 @@ def describe(layer, start):
     if layer == "TL":
         return "TreeList over %s namespace %s" % ("case-sensitive" if start[1] else "case-insensitive",
                                                   "with one tree (a,b)" if start[2] else "(empty)")
+    if layer == "TP":
+        return "TreeList over %s namespace %s; pool: trees P0=(a,b) P1=(a,c) P2=(b,c) over ONE foreign namespace S=[a,b,c]" % (
+            "case-sensitive" if start[1] else "case-insensitive", "with one tree (a,b)" if start[2] else "(empty)")
+    if layer == "DP":
+        return "DataSet (%s) holding one empty TreeList; pool: trees P0=(a,b) P1=(a,c) P2=(b,c) and matrices Q0(a,b) Q1(a,c) over ONE foreign namespace S=[a,b,c]" % start[1]
     return "%s start %r" % (layer, start)
 
 
